@@ -252,13 +252,14 @@ PROPS = {
         tests=[T("TestC14", Q(16, timeout=300, shards=4, shrinktime="30s"), Q(80, timeout=1500, shards=16, shrinktime="90s")),
                T("TestC14Odd", Q(10, timeout=200, shrinktime="10s"), Q(60, timeout=600, shards=2, shrinktime="30s")),
                T("TestC14Race", Q(10000), Q(100000, timeout=900, shards=4)),
+               T("TestC14RaceExhaustive", Q(0, timeout=300), Q(0, timeout=1200)),
                T("TestC14Diff", Q(30000), Q(200000, timeout=900, shards=2))],
         rule="TestC14: a fresh real engine per case; 3-20 actions over names {a,b,c}: create, delete, restore (generated 0-4 record stream through Manager.Restore), list, get, put, range, reconcile. Oracle: create succeeds iff the name is absent "
              "(sequentially: always then), every assigned id (create and restore) > all earlier ids, delete iff exists, list/get == model catalogue (name:id), new and re-created tables are empty, a put on one table never changes another, "
              "after VerifReconcile the NodeHost's running table shards == catalogued ids. Non-trivial iff a name that held data was deleted and re-created, or a restore happened between creates. "
              "TestC14Odd: same with names that look like metadata paths / globs (x/y, a/lease, sys/idseq, *, [a]); failures after such an action are attributed to the listed name-collision finding. "
              "TestC14Race: 2-3 real Managers over one gated LFSM store racing VerifCreateRecord / DeleteTable (1-3 calls each) under rapid-drawn schedules at store-operation granularity; oracle: ids never reused, never two successful creates of a live name, "
-             "store catalogue only holds acknowledged tables (non-trivial iff two creators both passed the existence check before either wrote); in a third of the cases two writes parked at the same time are applied by ONE Update call of the metadata state machine. TestC14Diff: diffTables on generated catalogue (ids incl. 0, <=10000, recover ids) x running-shard sets; "
+             "store catalogue only holds acknowledged tables (non-trivial iff two creators both passed the existence check before either wrote); in a third of the cases two writes parked at the same time are applied by ONE Update call of the metadata state machine. TestC14RaceExhaustive: ALL schedules (each exactly once, DFS over the scheduler's choice points; ~10^5) of two managers running every pair of programs of up to 2 calls over {create a, create b, delete a}, without and with batched application. TestC14Diff: diffTables on generated catalogue (ids incl. 0, <=10000, recover ids) x running-shard sets; "
              "oracle: start == catalogued minus running, stop == running minus catalogued, ids > 10000 only (non-trivial iff both sets non-empty). Distinct = sha256 of case JSON.",
         assumptions=["single-node engine for the sequential part; concurrency is explored on the gated store only", "table names with '/' or glob syntax are a listed known finding"],
         technique="stateful model-based property testing on a real engine + schedule exploration on a gated store + pure-function property test of the reconcile diff",
@@ -269,7 +270,8 @@ PROPS = {
         pkg="c11", level="exploration", journal_cases=True,
         tests=[T("TestC11", Q(4, timeout=300, shards=4, shrinktime="5s"), Q(40, timeout=1500, shards=16, shrinktime="20s")),
                T("TestC11RYW", Q(25, timeout=300, shards=2, shrinktime="20s"), Q(120, timeout=1500, shards=8, shrinktime="60s")),
-               T("TestC11Order", Q(20000, timeout=300), Q(200000, timeout=900, shards=4))],
+               T("TestC11Order", Q(20000, timeout=300), Q(200000, timeout=900, shards=4)),
+               T("TestC11Sweep", Q(4, timeout=300, shards=2, shrinktime="10s"), Q(40, timeout=900, shards=8, shrinktime="30s"))],
         rule="TestC11: timed scenarios on the real storage.IndexNotificationQueue (its own Run goroutine, hard-coded 1 s sweep): 2-12 events spread over 3.3 s on two tables - add(revision 0-6, optionally cancelled 1-2500 ms later), "
              "notify(revision 0-6), len - followed by one more sweep and a responsiveness probe; each rapid case runs 150 scenarios concurrently (evaluations = scenarios). Every waiter reads its channel once, like ForwardingKVServer. Oracle: exactly one "
              "answer; success only if a notification >= its revision for its table had started before; error only after its context ended; never a second answer; an unanswered waiter while Len(table)==0 is lost (timing-free); a waiter cancelled >2.5 s ago "
@@ -278,7 +280,9 @@ PROPS = {
              "txn (incl. empty executed branch) sent to the follower API, each followed immediately by a serializable read on the follower that must observe it, with follower engine restarts (tables re-opened) between writes (non-trivial iff >=1 txn with an empty executed branch or >=3 forwarded writes). "
              "TestC11Order: the queue as an UNTIMED state machine - Add/Notify/Len are synchronous hand-overs to the single event loop and a returned Len() proves everything handed over before has been processed, so after every step the set of answered waiters is a function of the history: "
              "4-60 steps on two tables, add(revision 0..8/30/200 in arbitrary order), notify(non-decreasing per table), cancel(any waiter), len; oracle: a live waiter is acknowledged iff a notification >= its revision was delivered for its table, errors only for ended contexts, "
-             "no second answer, live-unanswered <= Len <= unanswered (non-trivial iff >=2 waiters registered below an already waiting higher revision).",
+             "no second answer, live-unanswered <= Len <= unanswered (non-trivial iff >=2 waiters registered below an already waiting higher revision). "
+             "TestC11Sweep: the same state machine and oracle with the queue's 1 s sweep of ended contexts in the middle (3-14 waiters in arbitrary order, 1..n/2 of them cancelled anywhere in the priority queue, wait for the sweep, more waiters, notifications walking up): "
+             "nothing is asserted about when the sweep runs, it only perturbs the queue's state; 200 scenarios side by side per case (evaluations = scenarios; non-trivial iff >=1 cancelled and >=2 live waiters).",
         assumptions=["real time is unavoidable (the sweep interval is hard-coded): every time-based judgement is one-sided and generous, a slow machine can only turn a violation into 'inconclusive'"],
         technique="property-based testing over timed event schedules with a history oracle; end-to-end read-your-writes on real engines",
         level_text="Randomised exploration of waiter/notification/cancellation schedules across >=4 sweeps; thousands of scenarios per quick run.",
